@@ -26,7 +26,7 @@ func TestShard3(t *testing.T) { histories(t, 3) }
 func histories(t *testing.T, shard int) {
 	run := obs.Start(t, "C16")
 	defer run.Done()
-	run.Rule("histories of 30 ops on a mini node (capacity 10..22 chunks, 8..13 in every second history) over families of overlapping files: identical blocks shared between files, one file being a chunk-aligned prefix of another, repeated blocks inside a file; files are uploaded, uploaded pinned, cached from a source node, deleted through DELETE /aurora/{ref} and evicted by collection runs; after every delete / eviction every other file that was locally complete is read back from the local store only (manifest + joiner) and compared byte for byte, and chunks used only by the removed file (and not pinned) must be gone; distinct = (relation kinds among files, removal kinds, #removals)",
+	run.Rule("histories of 30 ops on a mini node (capacity 10..22 chunks, 8..13 in every second history) over families of overlapping files: identical blocks shared between files, one file being a chunk-aligned prefix of another, repeated blocks inside a file; files are uploaded, uploaded pinned, cached from a source node, deleted through DELETE /aurora/{ref} and evicted by collection runs; every third history restarts the node now and then (new node on the same chunk database and state store); after every delete / eviction every other file that was locally complete is read back from the local store only (manifest + joiner) and compared byte for byte, and chunks used only by the removed file (and not pinned) must be gone; distinct = (relation kinds among files, removal kinds, #removals)",
 		"'locally known' files are those uploaded or cached on the node and not deleted or evicted since",
 		"a file counts as evicted by a collection run when its root chunk was stored before the eviction and is gone afterwards")
 	n := run.N(200, 1600)
@@ -40,7 +40,16 @@ func histories(t *testing.T, shard int) {
 		if i%2 == 1 {
 			capacity = uint64(8 + rng.Intn(6)) // small cache: collections become due often
 		}
-		w, err := fsim.NewWorld(capacity)
+		// every third history runs on a restartable node and restarts it now and then: what
+		// chunkinfo knows about the files is then rebuilt from the state store
+		restartable := i%3 == 2
+		var w *fsim.World
+		var err error
+		if restartable {
+			w, err = fsim.NewRestartableWorld(capacity)
+		} else {
+			w, err = fsim.NewWorld(capacity)
+		}
 		if err != nil {
 			t.Fatal(err)
 		}
@@ -162,6 +171,14 @@ func histories(t *testing.T, shard int) {
 			x := rng.Intn(12)
 			if s0, _ := fsim.Dump(w.N); s0.GCSize > s0.Target && (i%2 == 1 || rng.Intn(2) == 0) {
 				x = 11 // a collection is due: collection branch
+			}
+			if restartable && rng.Intn(6) == 0 {
+				hist = append(hist, opRec{Op: "restart", File: -1})
+				if err := w.Restart(); err != nil {
+					t.Fatalf("restart: %v", err)
+				}
+				run.Stat("restarts", 1)
+				continue
 			}
 			switch {
 			case x < 3:
